@@ -281,6 +281,29 @@ impl World {
                         if !same {
                             viols.push("C16/C06 the pool account after the swap instruction differs from the manager-level swap on the same state".to_string());
                         }
+                        // adaptive-fee pools: the Oracle account must hold exactly the variables the swap computed (C14)
+                        if let Some(info) = &reference.af {
+                            let od = fx.bank.data(&fx.oracle);
+                            if od.len() >= 8 + std::mem::size_of::<::whirlpool::state::Oracle>() {
+                                let o: &::whirlpool::state::Oracle = bytemuck::from_bytes(&od[8..8 + std::mem::size_of::<::whirlpool::state::Oracle>()]);
+                                let (sv, rv) = (o.adaptive_fee_variables, info.variables);
+                                let same_af = { sv.last_reference_update_timestamp } == { rv.last_reference_update_timestamp }
+                                    && { sv.last_major_swap_timestamp } == { rv.last_major_swap_timestamp }
+                                    && { sv.volatility_reference } == { rv.volatility_reference }
+                                    && { sv.tick_group_index_reference } == { rv.tick_group_index_reference }
+                                    && { sv.volatility_accumulator } == { rv.volatility_accumulator };
+                                if !same_af {
+                                    viols.push(format!(
+                                        "C14 the Oracle account after the swap instruction stores (ref_ts {}, major_ts {}, vol_ref {}, group_ref {}, vol_acc {}) but the swap computed ({}, {}, {}, {}, {})",
+                                        { sv.last_reference_update_timestamp }, { sv.last_major_swap_timestamp }, { sv.volatility_reference }, { sv.tick_group_index_reference }, { sv.volatility_accumulator },
+                                        { rv.last_reference_update_timestamp }, { rv.last_major_swap_timestamp }, { rv.volatility_reference }, { rv.tick_group_index_reference }, { rv.volatility_accumulator }
+                                    ));
+                                }
+                                tags.push("x_oracle_checked");
+                            } else {
+                                viols.push("C14 adaptive-fee pool without an Oracle account after the swap".to_string());
+                            }
+                        }
                         // the Traded event reports the amounts moved
                         if let Some(ev) = out.events.iter().find(|e| e.len() == 8 + 32 + 1 + 16 + 16 + 8 * 6) {
                             let u = |o: usize| u64::from_le_bytes(ev[o..o + 8].try_into().unwrap());
